@@ -17,7 +17,8 @@ MODELLED = (
     "Dispatcher/RunEngine subscription handling, and as much of open_run/create-read-save/close_run and _run's "
     "except/finally as decides which documents a non-catching plan emits, where it is aborted and how an open run is "
     "closed (exit_status fail, errors of the re-close swallowed, event_model's compose_stop poison pill). Callbacks are "
-    "functions of the document that either return or raise; they do not subscribe, unsubscribe or re-enter the engine. "
+    "functions of the document that may call RE.unsubscribe(token) / RE.subscribe(plain callable, name) and then return or "
+    "raise (process iterates over a list() snapshot); they do not otherwise re-enter the engine. "
     "warnings emitted for ignored exceptions, logging, and the traceback objects are not observed."
 )
 RULE = (
@@ -25,7 +26,10 @@ RULE = (
     "orders x every assignment of raise patterns from {never, start, event#2, stop} (thorough: also descriptor, every event, "
     "everything) x both policies x 3 plans (two events; two runs; run left open), plus seeded random histories where each "
     "callable is subscribed at most once (permanent / per-call dict / in-plan, random kinds) with policy changes between "
-    "calls, plus C18's random histories with raising callbacks (sharing allowed; only model agreement is checked on those). "
+    "calls, plus C18's random histories with raising callbacks (sharing allowed; only model agreement is checked on those); "
+    "callbacks that change the subscriptions WHILE a document is delivered: exhaustively one of three callables x {start, "
+    "event#1, stop} x {unsubscribe own / either other token, subscribe a fourth callable to all / event} x both policies x 2 "
+    "plans, and random such actions on half of the random histories. "
     "Non-trivial = some callback raised."
 )
 
@@ -35,13 +39,17 @@ def cases(rng, tier):
     if tier == "quick":
         out += list(G.enumerate_policy(G.RAISE_SMALL, [(0, 1, 2), (2, 0, 1)]))
         nrand, nshare = 250, 80
+        out += list(G.enumerate_mutating())
     else:
         out += list(G.enumerate_policy(G.RAISE_FULL, list(itertools.permutations(range(3)))))
         nrand, nshare = 6000, 3000
-    for _ in range(nrand):
-        out.append(G.rand_policy_history(rng))
-    for _ in range(nshare):
-        out.append(G.rand_history(rng, maxops=6, p_raise=0.5, p_ignore=0.15))
+        out += list(G.enumerate_mutating())
+    for i in range(nrand):
+        c = G.rand_policy_history(rng)
+        out.append(G.add_random_acts(rng, c) if i % 2 else c)
+    for i in range(nshare):
+        c = G.rand_history(rng, maxops=6, p_raise=0.5, p_ignore=0.15)
+        out.append(G.add_random_acts(rng, c) if i % 2 else c)
     return out
 
 
@@ -84,8 +92,9 @@ def oracle(case, obs):
     if O.sharing(case, obs):
         return None          # equal callables registered twice: C18's finding class, not judged here
     ign = False
-    # 1. every document: every live subscription asking for its kind, once, in subscription order;
-    #    with exceptions not ignored, up to and including the first one that raises
+    # 1. every document: every subscription live when the document is emitted and asking for its kind, once, in
+    #    subscription order - whatever callbacks do to the subscriptions during the delivery; with exceptions
+    #    not ignored, up to and including the first one that raises
     for ev in O.walk(case, obs):
         if ev[0] != "emission":
             continue
@@ -113,6 +122,8 @@ def oracle(case, obs):
         if op[0] != "call":
             continue
         cb_out = isinstance(o["out"], list) and o["out"][0] == "cb"
+        if not cb_out and o["out"] not in ("ok", "KeyError", "Illegal"):
+            return "op %d: the call ended with %r, which neither the plan nor a callback raised" % (oi, o["out"])
         if ign:
             if cb_out:
                 return "op %d: exceptions are ignored but the call raised callback exception %s" % (oi, o["out"])
